@@ -295,7 +295,7 @@ type GenOpts struct {
 // longTail makes names of 150 characters and more (NAME_MAX is 255)
 var longTail = strings.Repeat("abcdefghij", 15) + ".dat"
 
-var nameStems = []string{"f%d.dat", "data%d.bin", "sub/f%d", "sub/deep/er/f%d.x", "with space %d.txt", "UPPER%d.DAT", "d%d/file", "a-%d_b.c.d", "v1..%d.dat", "rel..%d/data.bin", "wait...%d", "win\\f%d.dat", "a\\..\\b%d", "trail%d ", "dot%d.", "n%d", "abcdefg%d", "report[%d].txt", "q%d?.dat", "star*%d.bin", "long%d-" + longTail}
+var nameStems = []string{"f%d.dat", "data%d.bin", "sub/f%d", "sub/deep/er/f%d.x", "with space %d.txt", "UPPER%d.DAT", "d%d/file", "a-%d_b.c.d", "v1..%d.dat", "rel..%d/data.bin", "wait...%d", "win\\f%d.dat", "a\\..\\b%d", "trail%d ", "dot%d.", "n%d", "abcdefg%d", "report[%d].txt", "q%d?.dat", "star*%d.bin", "long%d-" + longTail, "tab\t%d.dat", "line\n%d", "bell\a%d.bin", "esc\x1b[0m%d", "del\x7f%d"}
 var par1Stems = []string{"f%d.dat", "data%d.bin", "with space %d.txt", "héllo%d.txt", "日本%d", "\U0001F600%d.bin", "UPPER%d.DAT", "clip%d-\U0001F600", "%d\U00010348\U0001F4BE", "x%dé", "v1..%d.dat", "wait...%d", "..%d", "dot%d.", "report[%d].txt", "long%d-" + longTail, "\ufeff%d.txt", "%d\ufeffmid.bin", "\u200b%d", "\ufffd%d"}
 
 // (the last ones contain an archive extension or a volume-like part
@@ -676,6 +676,51 @@ func GenWorld(r *Run, o GenOpts) *World {
 					r.Probe("bystander-at-slash-translated-path")
 				}
 			}
+		}
+	}
+	// a name with control characters is an ordinary name here; tools that
+	// display, escape or "translate" such names produce another name, and
+	// an unrelated file may well live under that one
+	for i, f := range w.Files {
+		ctl := strings.IndexFunc(f.Name, func(c rune) bool { return c < 32 || c == 127 })
+		if ctl < 0 || !t.Bool(2, 3, "sanitised-name-bystander") {
+			continue
+		}
+		scheme := t.Draw(7, "sanitising-scheme")
+		var sb strings.Builder
+		for _, c := range f.Name {
+			if c >= 32 && c != 127 {
+				sb.WriteRune(c)
+				continue
+			}
+			switch scheme {
+			case 0:
+				fmt.Fprintf(&sb, "%02X", c)
+			case 1:
+				fmt.Fprintf(&sb, "%02x", c)
+			case 2:
+				fmt.Fprintf(&sb, "%%%02X", c)
+			case 3:
+				sb.WriteByte('_')
+			case 4:
+			case 5:
+				fmt.Fprintf(&sb, "^%c", c^64)
+			default:
+				sb.WriteByte('?')
+			}
+		}
+		p := filepath.Join(w.Dir, sb.String())
+		taken := false
+		for j := range w.Files {
+			if w.Path(j) == p {
+				taken = true
+			}
+		}
+		if _, exists := w.Disk.Get(p); !exists && !taken && sb.String() != "" {
+			data := expandContent(ckText, uint64(77+i), 24, 4)
+			w.Bystanders[p] = data
+			w.Disk.Put(p, data)
+			r.Probe("bystander-at-sanitised-name")
 		}
 	}
 	// an unrelated file beside the index (or in another directory of the
